@@ -541,6 +541,29 @@ PROPS = {
         "trusted_base": ["modelled, not verified: the id-keyed block cache and the id counter rewind of restore (Skv/Model/Restore.lean); "
                          "the value-log reload, sequence / oracle reset and manifest reload are exercised by the stream only"],
     },
+    "C11": {
+        "lean": ["Skv.Props.C11"],
+        "audit": "Skv/Audit/C11.lean",
+        "streams": [
+            dict(_STORE_STREAM, name="values", gen_args=["--mode", "c11"], quick_cases=200, thorough_cases=3000),
+            dict(_CRASH_STREAM, gen_args=["--vlog", "1"]),
+        ],
+        "rule": "(values) store-level histories with the value log on: separation threshold 0 or 64, value-log files of 256 / 512 / 4096 bytes "
+                "(rotation inside one flush), values of length 0, t-1, t, t+1, 2000-5000 and 1-300 bytes, overwrites and deletes that make "
+                "files obsolete, readers opened back to back and kept open across memtable rotation, flush, compaction rounds (each followed "
+                "by the value-log clean-up) and reopen, every read compared byte for byte with the placement-free specification; after every "
+                "compaction and at the end a walk over all live tables checks that every value pointer leads to an existing file at or "
+                "above the table's recorded oldest id and the manifest minimum; (crash) the crash-image stream of C02 restricted to cases "
+                "with the value log on (images inside flush at the value-log file-creation yield points included)",
+        "assumptions": [
+            "power loss (value-log data not yet synced when the table that points to it is installed) is not modelled nor explored: partial",
+            "encoding of pointers / entries and their damage detection are C16's streams",
+        ],
+        "trusted_base": ["modelled, not verified: the oldest-file bookkeeping of TableWriter, LevelManifest::min_oldest_vlog_file_id and "
+                         "VLog::cleanup_obsolete_files (Skv/Model/VlogGc.lean); separation, rotation and value resolution are exercised "
+                         "by the stream only",
+                         "the pointer walk hook (src/verif.rs store::vlog_audit)"],
+    },
     "C15": {
         "lean": ["Skv.Props.C15"],
         "audit": "Skv/Audit/C15.lean",
